@@ -33,6 +33,8 @@ impl InstructionGenerator {
         for i in 0..else_if_blocks.len() {
             let else_if_block = else_if_blocks[i].clone();
             self.label(&format!("else-if-{}", i), pos);
+            // to be able to resume at the ELSEIF after an error in its condition
+            self.mark_statement_address();
 
             // evaluate condition into A
             self.generate_expression_instructions(else_if_block.condition);
